@@ -408,6 +408,10 @@ where
             let aad = &aads[(li / 2 + ki) % aads.len()];
             if let Some(s) = seal_lib::<B, P>(rec, st, &km.seal, &claims, footer, aad, (false, false), None) {
                 present::<B, P>(rec, st, &s.text, &km.unseal, aad, DecodeMode::Ok, true, json!({"cls":"honest"}));
+                if li % 9 == 4 {
+                    let nf = if footer.is_empty() { b"added".to_vec() } else if li % 2 == 0 { Vec::new() } else { let mut x = footer.to_vec(); x.reverse(); x.push(b'!'); x };
+                    reseal_with_new_footer::<B, P>(rec, st, &km.seal, &km.unseal, &s, &claims, &nf, aad);
+                }
             }
         }
     }
@@ -461,6 +465,17 @@ where
                 iat: if mask >> 6 & 1 == 1 { t(1_600_000_000 - i as i64, 0) } else { None },
             };
             seal_registered::<B, P>(rec, st, &km.seal, &km.unseal, &claims, &footers[i % footers.len()]);
+            // the same registered claims flattened into an application struct with floats and enums next to them
+            if i % 3 == 0 {
+                let app = AppClaims {
+                    registered: claims.clone(),
+                    role: strs[(i + 2) % strs.len()].to_string(),
+                    session: Session { uid: u64::MAX - i as u64, trust: [0.25, 1.0, 1e300, -0.5, 3.0][i % 5] },
+                    amount: [Amount::Whole(7), Amount::Real(2.5), Amount::Text("n/a".into()), Amount::Real(1e-7)][i % 4].clone(),
+                    grant: if i % 2 == 0 { Grant::Read { ratio: 0.75 } } else { Grant::Write { quota: 9 } },
+                };
+                seal_typed::<B, P, SpyApp>(rec, st, &km.seal, &km.unseal, &SpyApp(app), &footers[(i + 1) % footers.len()]);
+            }
         }
     }
     // many signatures per randomized signer so that rare signature values (leading zero bytes) occur
@@ -550,19 +565,93 @@ where
     }
 }
 
+/// unseal -> change the (public) footer field -> seal again: the new token carries and authenticates the NEW footer
+fn reseal_with_new_footer<B: Backend, P: Purpose>(rec: &mut Recorder, st: &mut Stats, km_seal: &[u8], km_unseal: &[u8], first: &Sealed, claims: &[u8], new_footer: &[u8], aad: &[u8])
+where
+    B::V: SealingVersion<P>,
+{
+    let purpose = purpose_name::<P>();
+    let Ok(ukey) = key_from_bytes::<B::V, P>(km_unseal) else { return };
+    let key = cached_key::<B::V, P::SealingKey>(km_seal).expect("sealing key parses");
+    // the first token is opened outside the recording (its own round trip has been recorded already)
+    let opened = catch_unwind(AssertUnwindSafe(|| {
+        SealedToken::<B::V, P, SpyClaims, SpyFooter>::from_str(&first.text).and_then(|t| t.unseal(&ukey, aad, &SpyValidator { verdict: true }))
+    }));
+    spy_take();
+    let Ok(Ok(mut open)) = opened else { return };
+    open.footer = SpyFooter(new_footer.to_vec());
+    let (kid, cid, fid, aid) = (rec.intern(km_seal), rec.intern(claims), rec.intern(new_footer), rec.intern(aad));
+    rec.emit(json!({"ev":"SealCall","be":B::NAME,"ver":B::VER,"purpose":purpose,"key":kid,"claims":cid,"footer":fid,"aad":aid,"how":"re-seal of an unsealed token with its footer field replaced"}));
+    spy_take();
+    rng::reset(rng::Source::Os, true, None, false);
+    let r = catch_unwind(AssertUnwindSafe(|| open.seal(&key, aad)));
+    rng::passthrough();
+    emit_spy(rec, spy_take());
+    st.seals += 1;
+    match r {
+        Err(p) => rec.emit(json!({"ev":"Panic","where":"seal","be":B::NAME,"payload":panic_text(p)})),
+        Ok(Err(e)) => rec.emit(json!({"ev":"SealRet","ok":false,"errc":errc(&e),"err":errname(&e),"wire":0,"footer":0,"fresh":[]})),
+        Ok(Ok(tok)) => {
+            let text = tok.to_string();
+            let hdr = header::<B, P>();
+            let Some((payload, tfooter)) = split_token(&text, hdr.len()) else { return };
+            let (wid, tfid) = (rec.intern(&payload), rec.intern(&tfooter));
+            let fresh: Vec<u64> = if purpose == "local" { vec![rec.intern(payload.get(..nonce_len(B::VER)).unwrap_or(&payload))] } else { vec![] };
+            rec.emit(json!({"ev":"SealRet","ok":true,"wire":wid,"footer":tfid,"fresh":fresh,"len":payload.len(),"clen":claims.len()}));
+            let sid = rec.intern(text.as_bytes());
+            rec.emit(json!({"ev":"ToString","str":sid,"ver":B::VER,"purpose":purpose,"wire":wid,"footer":tfid}));
+            present::<B, P>(rec, st, &text, km_unseal, aad, DecodeMode::Ok, true, json!({"cls":"honest"}));
+        }
+    }
+}
+
 /// one honest round trip with paseto-json's RegisteredClaims as the payload type and Json<Value> as the footer type
+pub trait TypedPayload: paseto_core::encodings::Payload + Clone {
+    type Accept: paseto_core::validation::Validate<Claims = Self>;
+    const PTYPE: &'static str;
+    fn identity(&self) -> Vec<u8>;
+    fn accept() -> Self::Accept;
+}
+impl TypedPayload for SpyReg {
+    type Accept = AcceptReg;
+    const PTYPE: &'static str = "registered-claims";
+    fn identity(&self) -> Vec<u8> {
+        reg_identity(&self.0)
+    }
+    fn accept() -> AcceptReg {
+        AcceptReg
+    }
+}
+impl TypedPayload for SpyApp {
+    type Accept = AcceptApp;
+    const PTYPE: &'static str = "application-claims";
+    fn identity(&self) -> Vec<u8> {
+        app_identity(&self.0)
+    }
+    fn accept() -> AcceptApp {
+        AcceptApp
+    }
+}
+
 fn seal_registered<B: Backend, P: Purpose>(rec: &mut Recorder, st: &mut Stats, seal_key: &[u8], unseal_key: &[u8], claims: &paseto_json::RegisteredClaims, footer: &serde_json::Value)
+where
+    B::V: SealingVersion<P>,
+{
+    seal_typed::<B, P, SpyReg>(rec, st, seal_key, unseal_key, &SpyReg(claims.clone()), footer)
+}
+
+fn seal_typed<B: Backend, P: Purpose, M: TypedPayload>(rec: &mut Recorder, st: &mut Stats, seal_key: &[u8], unseal_key: &[u8], claims: &M, footer: &serde_json::Value)
 where
     B::V: SealingVersion<P>,
 {
     let purpose = purpose_name::<P>();
     let key: Key<B::V, P::SealingKey> = key_from_bytes(seal_key).expect("sealing key parses");
     let wire_footer = serde_json::to_vec(footer).unwrap();
-    let (kid, cid, fid) = (rec.intern(seal_key), rec.intern(&reg_identity(claims)), rec.intern(&wire_footer));
-    rec.emit(json!({"ev":"SealCall","be":B::NAME,"ver":B::VER,"purpose":purpose,"key":kid,"claims":cid,"footer":fid,"aad":0,"ptype":"registered-claims"}));
+    let (kid, cid, fid) = (rec.intern(seal_key), rec.intern(&claims.identity()), rec.intern(&wire_footer));
+    rec.emit(json!({"ev":"SealCall","be":B::NAME,"ver":B::VER,"purpose":purpose,"key":kid,"claims":cid,"footer":fid,"aad":0,"ptype":M::PTYPE}));
     spy_take();
     rng::reset(rng::Source::Os, true, None, false);
-    let r = catch_unwind(AssertUnwindSafe(|| UnsealedToken::<B::V, P, SpyReg>::new(SpyReg(claims.clone())).with_footer(SpyJsonFooter(footer.clone())).seal(&key, &[])));
+    let r = catch_unwind(AssertUnwindSafe(|| UnsealedToken::<B::V, P, M>::new(claims.clone()).with_footer(SpyJsonFooter(footer.clone())).seal(&key, &[])));
     rng::passthrough();
     emit_spy(rec, spy_take());
     st.seals += 1;
@@ -588,7 +677,7 @@ where
     let sid = rec.intern(text.as_bytes());
     rec.emit(json!({"ev":"ToString","str":sid,"ver":B::VER,"purpose":purpose,"wire":wid,"footer":tfid}));
     st.presentations += 1;
-    let parsed = catch_unwind(AssertUnwindSafe(|| SealedToken::<B::V, P, SpyReg, SpyJsonFooter>::from_str(&text)));
+    let parsed = catch_unwind(AssertUnwindSafe(|| SealedToken::<B::V, P, M, SpyJsonFooter>::from_str(&text)));
     spy_take();
     let Ok(Ok(t2)) = parsed else {
         rec.emit(json!({"ev":"ParseRet","be":B::NAME,"str":sid,"ver":B::VER,"purpose":purpose,"ok":false,"wire":0,"footer":0}));
@@ -600,14 +689,14 @@ where
     rec.emit(json!({"ev":"ParseRet","be":B::NAME,"str":sid,"ver":B::VER,"purpose":purpose,"ok":true,"wire":w2,"footer":ff2,"pwire":wid,"pfooter":tfid}));
     let ukey: Key<B::V, P> = key_from_bytes(unseal_key).unwrap();
     let uk = rec.intern(unseal_key);
-    rec.emit(json!({"ev":"UnsealCall","be":B::NAME,"ver":B::VER,"purpose":purpose,"wire":wid,"footer":tfid,"key":uk,"aad":0,"note":{"cls":"honest-registered-claims"}}));
-    let r = catch_unwind(AssertUnwindSafe(|| t2.unseal(&ukey, &[], &AcceptReg)));
+    rec.emit(json!({"ev":"UnsealCall","be":B::NAME,"ver":B::VER,"purpose":purpose,"wire":wid,"footer":tfid,"key":uk,"aad":0,"note":{"cls":"honest-typed-claims"}}));
+    let r = catch_unwind(AssertUnwindSafe(|| t2.unseal(&ukey, &[], &M::accept())));
     emit_spy(rec, spy_take());
     match r {
         Err(p) => rec.emit(json!({"ev":"Panic","where":"unseal","be":B::NAME,"payload":panic_text(p)})),
         Ok(Err(e)) => rec.emit(json!({"ev":"UnsealRet","ok":false,"errc":errc(&e),"err":errname(&e),"claims":0,"footer":0})),
         Ok(Ok(u)) => {
-            let c = rec.intern(&reg_identity(&u.claims.0));
+            let c = rec.intern(&u.claims.identity());
             let f = rec.intern(&serde_json::to_vec(&u.footer.0).unwrap());
             rec.emit(json!({"ev":"UnsealRet","ok":true,"claims":c,"footer":f,"errc":""}));
         }
